@@ -82,7 +82,7 @@ func (x *runner) exhaustiveLookups(r *hx.Rand) {
 			x.lookup(&c)
 			// the same subset through HandleXMPP
 			q := queryNames[r.Intn(len(queryNames))]
-			d := dcase{Ops: ops, NS: "jabber:client", Script: []beh{{Reads: r.Intn(4)}, {Reads: 9}}}
+			d := dcase{Ops: ops, NS: "jabber:client", Script: []beh{{Reads: r.Intn(4)}, {Reads: 9}}, UWith: r.Chance(1, 3)}
 			switch kind {
 			case 0:
 				d.Name = q
@@ -140,7 +140,13 @@ func (x *runner) exhaustiveChildren(r *hx.Rand, depth int) {
 				}
 				d.Script = append(d.Script, beh{Reads: 99})
 				d.Toks = append(d.Toks, tokS{K: "e", S: "jabber:client", L: local})
+				// the same scenario from both kinds of reader: (nil, io.EOF)
+				// after the end element / the end element together with io.EOF
+				// (every third one: together with another error)
+				dw := d
 				x.dispatch(&d)
+				dw.UWith, dw.UErr = true, k%3 == 0
+				x.dispatch(&dw)
 			}
 		}
 	}
@@ -175,7 +181,75 @@ func (x *runner) nearEmpty(r *hx.Rand) {
 					}
 					d.Toks = append(append([]tokS{}, body...), tokS{K: "e", S: "jabber:client", L: kindLocal[kind]})
 					d.Script = []beh{{Reads: (bi * 2) % 7}, {Reads: 9}}
+					dw := d
 					x.dispatch(&d)
+					dw.UWith = true
+					x.dispatch(&dw)
+				}
+			}
+		}
+	}
+}
+
+// ownNames: pattern universes built from the stanza element's OWN local name and
+// name space (patterns such as Message(chat, {jabber:client}) registered for
+// body/subject/thread, or Presence("", {jabber:client}) for show/status): all
+// 512 subsets of 9 patterns per stanza kind, against the empty stanza (which must
+// go to the bare type wildcard and nowhere else), against children named like
+// the stanza itself, and through the lookup methods; from both kinds of reader.
+func (x *runner) ownNames(r *hx.Rand, all bool) {
+	stanzaNS := []string{"jabber:client", "jabber:server"}
+	for kind := 1; kind <= 3; kind++ {
+		own := kindLocal[kind]
+		typs := [][]string{nil, {"result", "get"}, {"chat", "normal"}, {"", "unavailable"}}[kind]
+		for mask := 0; mask < 512; mask++ {
+			for nsi, ns := range stanzaNS {
+				if !all && nsi != mask%2 {
+					continue
+				}
+				other := stanzaNS[1-nsi]
+				uni := [][2]string{{ns, own}, {"", own}, {ns, ""}, {"", ""}, {ns, "a"}, {"", "a"}, {other, own}, {other, ""}, {other, "a"}}
+				typ := typs[(mask>>1)%2]
+				var ops []pat
+				for i, n := range uni {
+					if mask&(1<<i) != 0 {
+						ops = append(ops, pat{K: kind, T: typ, S: n[0], L: n[1], H: i + 1})
+					}
+				}
+				// distractors: the same names for another type and another stanza kind
+				ops = append(ops, pat{K: kind, T: typs[1-(mask>>1)%2], S: uni[mask%9][0], L: uni[mask%9][1], H: 20},
+					pat{K: 1 + kind%3, T: kindTypes[1+kind%3][1], S: uni[(mask/9)%9][0], L: uni[(mask/9)%9][1], H: 21})
+				shuffle(r, ops)
+				queries := [][2]string{{ns, own}, {"", ""}, {ns, "a"}, {other, own}, {"", own}, {ns, ""}, {other, "b"}, {"", "a"}, {ns, "b"}}
+				lc := dcase{Ops: ops, NS: ns, Tbl: kind, Type: typ, Queries: queries}
+				x.lookup(&lc)
+				bodies := [][]tokS{
+					{},
+					{{K: "s", S: ns, L: own}, {K: "e", S: ns, L: own}},
+					{{K: "s", S: ns, L: "a"}, {K: "t", Text: "v"}, {K: "e", S: ns, L: "a"}},
+					{{K: "s", S: other, L: own}, {K: "e", S: other, L: own}, {K: "s", S: ns, L: "a"}, {K: "e", S: ns, L: "a"}},
+					{{K: "t", Text: " "}},
+					{{K: "s", S: "x", L: own}, {K: "s", S: ns, L: own}, {K: "e", S: ns, L: own}, {K: "e", S: "x", L: own}, {K: "s", S: ns, L: "b"}, {K: "e", S: ns, L: "b"}},
+				}
+				pick := 1 + r.Intn(len(bodies)-1)
+				with0 := r.Chance(1, 2)
+				for bi, body := range bodies {
+					if !all && bi != 0 && bi != pick {
+						continue
+					}
+					for _, with := range []bool{false, true} {
+						if !all && with != (with0 != (bi == 0)) {
+							continue
+						}
+						d := dcase{Ops: ops, NS: ns, Name: [2]string{ns, own}, UWith: with}
+						if typ != "" {
+							d.Attrs = []attrS{{L: "type", V: typ}}
+						}
+						d.Attrs = append(d.Attrs, attrS{L: "id", V: "o1"})
+						d.Toks = append(append([]tokS{}, body...), tokS{K: "e", S: ns, L: own})
+						d.Script = []beh{{Reads: 99}, {Reads: []int{0, 2, 99}[mask%3]}, {Reads: 99}}
+						x.dispatch(&d)
+					}
 				}
 			}
 		}
@@ -219,7 +293,12 @@ func (x *runner) registrations(r *hx.Rand) {
 
 // ---- seeded elements ----
 
-var childNames = [][2]string{{"x", "a"}, {"x", "b"}, {"y", "a"}, {"y", "b"}, {"", "a"}, {"z", "c"}, {"x", "c"}, {"jabber:client", "a"}, {"y", "d"}}
+var childNames = [][2]string{{"x", "a"}, {"x", "b"}, {"y", "a"}, {"y", "b"}, {"", "a"}, {"z", "c"}, {"x", "c"}, {"jabber:client", "a"}, {"y", "d"},
+	{"jabber:client", "message"}, {"jabber:client", "presence"}}
+
+// payload patterns named like the stanza elements themselves
+var ownPatternNames = [][2]string{{"jabber:client", ""}, {"", "message"}, {"jabber:client", "message"}, {"", "presence"}, {"jabber:client", "presence"},
+	{"jabber:server", ""}, {"", "iq"}, {"jabber:client", "iq"}}
 
 func genOps(r *hx.Rand) []pat {
 	n := r.Intn(9)
@@ -233,7 +312,10 @@ func genOps(r *hx.Rand) []pat {
 		}
 		nm := uniNames[r.Intn(len(uniNames))]
 		if r.Chance(1, 8) {
-			nm = childNames[r.Intn(len(childNames))]
+			nm = childNames[r.Intn(9)]
+		}
+		if k != 0 && r.Chance(1, 6) {
+			nm = ownPatternNames[r.Intn(len(ownPatternNames))]
 		}
 		if k == 0 {
 			t = ""
@@ -376,6 +458,7 @@ func genDispatch(r *hx.Rand) dcase {
 		body = one
 	}
 	c.Toks = append(body, tokS{K: "e", S: c.Name[0], L: c.Name[1]})
+	c.UWith = r.Chance(1, 3)
 	total := len(c.Toks) + 1
 	for i := 0; i < 5; i++ {
 		b := beh{}
@@ -406,7 +489,9 @@ func genDispatch(r *hx.Rand) dcase {
 		case 2: // junk after the end
 			c.Toks = append(c.Toks, tokS{K: "s", S: "x", L: "a"}, tokS{K: "t", Text: "junk"})
 		default:
-			c.Toks = c.Toks[:r.Intn(len(c.Toks))]
+			if r.Chance(2, 3) {
+				c.Toks = c.Toks[:r.Intn(len(c.Toks))]
+			}
 			c.UErr = true
 		}
 	}
@@ -475,7 +560,7 @@ var corpus = []dcase{
 // ---- session driver: the same element through a real served session ----
 
 func sessionable(c *dcase) bool {
-	if c.UErr || len(c.Toks) == 0 || closedAt(c.Toks) != len(c.Toks)-1 || c.NS == "" || c.Name[0] != c.NS {
+	if c.UErr || c.UWith || len(c.Toks) == 0 || closedAt(c.Toks) != len(c.Toks)-1 || c.NS == "" || c.Name[0] != c.NS {
 		return false
 	}
 	if refusalExpected(c.Ops) != "" {
